@@ -480,3 +480,32 @@ def refLabel (t : Str) : Option LabelL :=
   | _ => none
 
 end Huginn.SigText.Spec
+
+/-! ## canonical signature text -/
+namespace Huginn.SigText.Spec
+open Huginn.Sig Huginn.SigText
+
+/-- `d` is a maximal run of digits in the text `a ++ d ++ b` -/
+def MaxRun (a d b : Str) : Prop :=
+  d ≠ [] ∧ (∀ c ∈ d, c.isDigit = true) ∧ (∀ c ∈ a.getLast?, c.isDigit = false) ∧
+    (∀ c ∈ b.head?, c.isDigit = false)
+
+/-- a numeral without leading zeros -/
+def CanonNum (d : Str) : Prop := d = ['0'] ∨ d.head? ≠ some '0'
+instance (d : Str) : Decidable (CanonNum d) := by unfold CanonNum; exact inferInstance
+
+/-- every numeral of the line is written without leading zeros -/
+def CanonNums (l : Str) : Prop := ∀ a d b, l = a ++ (d ++ b) → MaxRun a d b → CanonNum d
+
+/-- **canonical TCP signature line** (lexical, does not mention the parser): numerals without leading
+zeros, and no `?n` with n > 255 (which is not an option kind) -/
+def CanonTcp (l : Str) : Prop := CanonNums l ∧ ¬ Huginn.KF.C06.unknownKindOverflow l
+
+/-- decidable version of `CanonNums`, used by the driver (`canonNumsB_sound` in the lemmas) -/
+def canonNumsB (prevDigit : Bool) : Str → Bool
+  | [] => true
+  | c :: cs =>
+    (if c == '0' && !prevDigit then match cs with | d :: _ => !d.isDigit | [] => true else true) &&
+    canonNumsB c.isDigit cs
+
+end Huginn.SigText.Spec
